@@ -77,6 +77,7 @@ type Oracles struct {
 	TolerateDeath  bool `json:"tolerate_death,omitempty"`  // I/O errors are injected: the process may die, data must survive
 	FormsEqual     bool `json:"forms_equal,omitempty"`     // C03: compare batteries of different fraction forms with each other
 	NoErrors       bool `json:"no_errors,omitempty"`       // C07: any API error is a violation
+	IDsOnly        bool `json:"ids_only,omitempty"`        // copies of a document may sit in several fractions: only listing and fetch are compared
 }
 
 // Case is a complete, explicit, replayable simulation input.
@@ -85,6 +86,7 @@ type Case struct {
 	Profile  string         `json:"profile"`
 	Seed     uint64         `json:"seed"`
 	Knobs    simenv.Knobs   `json:"knobs"`
+	Mode     string         `json:"store_mode,omitempty"` // hot (default) | cold
 	Oracles  Oracles        `json:"oracles"`
 	Steps    []Step         `json:"steps"`
 	Faults   []*simos.Fault `json:"faults,omitempty"`
